@@ -20,7 +20,7 @@ RULE = ('corpus: every clause shape with 0..3 variables that occur only inside h
         'one call site (thorough: at every pair of call sites), all other sites keeping insertion order - the output must '
         'be byte-identical to the default-order output; (b) the whole corpus is compiled in fresh processes under '
         'PYTHONHASHSEED 0..5 (thorough 0..15) and the per-program digests must agree; (c) in one process every ordered pair '
-        'of corpus programs (from a subset, incl. the same text under other options: debug_filename with different file names) is compiled before the target and the target\'s output compared with its output '
+        'of corpus programs (from a subset, incl. the same text under other options: debug_filename with different file names, the file API and the library\'s default options object, a CompilerContext instance) is compiled before the target and the target\'s output compared with its output '
         'in a fresh state. states = distinct (program, output digest) pairs; transitions = compiler invocations; non-trivial '
         '= the program has >= 2 fresh variables or a choice point was explored')
 ASSUMPTIONS = ['nondeterminism that does not flow through a call of set()/frozenset() by name (set displays, id() ordering, '
@@ -77,6 +77,24 @@ def compile_or_exc(text, opts=None):
     try:
         if opts is None:
             return impl.compile_text(text)
+        if opts == 'file-default-options':
+            # the file API with the library's own default options object
+            import tempfile
+            d = tempfile.mkdtemp(prefix='verif-c18-')
+            try:
+                path = os.path.join(d, 'prog.prolog')
+                with open(path, 'w', encoding='utf8', newline='') as f:
+                    f.write(text)
+                return impl.compiler.compile_prolog_from_file(path)
+            finally:
+                import shutil
+                shutil.rmtree(d, ignore_errors=True)
+        if opts == 'string-default-options':
+            return impl.compiler.compile_prolog_from_string(text)
+        if opts == 'debug-filename-context-instance':
+            o = impl.compiler.CompilerContext()
+            o.debug_filename = True
+            return impl.compiler.compile_prolog_from_string(text, o)
 
         class Ctx(impl.Ctx):
             debug_filename = True
@@ -293,6 +311,9 @@ def run_shard(spec):
         subo = [(nm, tx, None) for nm, tx in sub]
         for nm, tx in sub[:3]:
             subo += [(nm + '@a.pl', tx, 'a.pl'), (nm + '@b.pl', tx, 'b.pl')]
+        for nm, tx in sub[:2]:
+            subo += [(nm + '@file', tx, 'file-default-options'), (nm + '@string-default', tx, 'string-default-options'),
+                     (nm + '@ctx-instance', tx, 'debug-filename-context-instance')]
         for tname, ttext, topts in subo:
             base = None
             for (n1, t1, o1), (n2, t2, o2) in itertools.product(subo, repeat=2):
